@@ -433,6 +433,12 @@ class BandwidthRateTracker:
             self._last_time = time_at_consumption
             self._current_rate = 0.0
             return
+        if time_at_consumption <= self._last_time:
+            # Consumed within the same clock reading as the previous
+            # consumption: the rate over a zero-length interval is infinite,
+            # and an infinite value would never leave the moving average
+            # again, throttling every later request for good.
+            return
         self._current_rate = self._calculate_exponential_moving_average_rate(
             amt, time_at_consumption
         )
